@@ -17,7 +17,7 @@ ID = "C09"
 LEVEL = "exploration"
 TECHNIQUE = "exhaustive enumeration of template strings x parameter forms x dictionaries against an independent substitution and read-set reference"
 RULE = (
-    "segments {x, {A}, {S.X}, {:p:}, escaped \\{e\\}}, all sequences of length 1..3 (155 templates); parameter p in "
+    "segments {x, {A}, {S.X}, {:p:}, escaped \\{e\\}}, all sequences of length 1..3 (155 templates; thorough 1..5, 3905); parameter p in "
     "{constant, Option, dataset}; dictionaries = product A in {absent,1,'a','{B}','p{B}q',['{B}'],{'K':'{B}'}} x B in "
     "{absent,2,'{C}',['{C}']} x C in {absent,3} x S.X in {absent,5,'{B}'} (reference depth 3); forms: Template, "
     "Option whose stored value is the template, Option whose default is the template.  Checked: value, missing-key "
@@ -38,17 +38,18 @@ SPEC = [
 PARAMS = [("const", ("val", "P")), ("opt", ("opt", "B")), ("ds", ("ds", "pd", {"params": [("opt", "C", ("val", 0))]}))]
 
 
-def templates():
-    for n in (1, 2, 3):
+def templates(maxlen=3):
+    for n in range(1, maxlen + 1):
         for combo in itertools.product(range(len(SEGS)), repeat=n):
             yield combo
 
 
 def cases(tier, seed):
     out = []
-    combos = list(templates())
+    maxlen = 3 if tier == "quick" else 5
+    combos = list(templates(maxlen))
     for a in range(0, len(combos), 5):
-        out.append(("tmpl", a, min(len(combos), a + 5)))
+        out.append(("tmpl", a, min(len(combos), a + 5), maxlen))
     return out
 
 
@@ -104,9 +105,10 @@ def run_case(case):
         _, label, term, o = case
         res["failures"] = check(term, o, res, label)
         return res
-    _, a, b = case
+    _, a, b = case[:3]
+    maxlen = case[3] if len(case) > 3 else 3
     dicts = list(product_dicts(SPEC))
-    for combo in list(templates())[a:b]:
+    for combo in list(templates(maxlen))[a:b]:
         s = "".join(SEGS[i] for i in combo)
         res["templates"] += 1
         forms = []
@@ -147,6 +149,7 @@ def summarize(results, tier):
         "evaluations": tot("evaluations"),
         "distinct_nontrivial": tot("nontrivial"),
         "templates": tot("templates"),
+        "max_segments": 3 if tier == "quick" else 5,
         "skipped_dict_in_multi_segment": tot("skipped"),
         "samples": samples[:5],
         "exhaustive": True,
